@@ -31,9 +31,10 @@ Inductive unop := UAbs | UFloor.
 Inductive redop := RSum      (* np.sum(x), x.sum(), builtin sum(x) *)
                  | RCount    (* np.count_nonzero(x) *)
                  | RAny | RAll | RMinV | RMaxV        (* x.any(), x.all(), np.min(x), np.max(x) *)
-                 | RSize.    (* x.size, len(x), x.shape[0] *)
+                 | RSize     (* x.size, len(x), x.shape[0] *)
+                 | RMedian | RMean.                   (* np.median(x), np.mean(x) *)
 Inductive dty := TBool | TInt | TFloat.
-Inductive extfn := X_melody_validate_voicing | X_melody_validate | X_tempo_validate.
+Inductive extfn := X_melody_validate_voicing | X_melody_validate | X_tempo_validate | X_alignment_validate.
 
 Inductive vexp :=
 | EVar (x : string) | EArg (i : nat)              (* local variable; i-th parameter *)
@@ -48,6 +49,11 @@ Inductive vexp :=
 | EPyFloat (a : vexp) | EPyBool (a : vexp)        (* float(a), bool(a) *)
 | EList (l : list vexp)                           (* a Python list [e1, ..., ek] of scalars (np functions see a 1-d array) *)
 | EItem (a : vexp) (i : nat)                      (* a[i] with a literal i >= 0 *)
+| ENone                                           (* None *)
+| EIsNone (a : vexp)                              (* a is None *)
+| ESlice (lo hi : option Z) (a : vexp)            (* a[lo:hi] on a 1-d array (Python slice semantics, no step) *)
+| EItemZ (a : vexp) (i : Z)                       (* a[i] with a literal i < 0 *)
+| EConcat (l : list vexp)                         (* np.concatenate([a1, ..., ak]) of 1-d float arrays / lists of numbers *)
 | EMask (a m : vexp)                              (* a[m], m a boolean array *)
 | EWhere (m v old : vexp).                        (* the array old after  old[m] = v *)
 
@@ -87,9 +93,13 @@ Fixpoint subst (en : env) (a : vexp) : vexp :=
   | EPyBool a => EPyBool (subst en a)
   | EList l => EList (map (subst en) l)
   | EItem a i => EItem (subst en a) i
+  | EIsNone a => EIsNone (subst en a)
+  | ESlice lo hi a => ESlice lo hi (subst en a)
+  | EItemZ a i => EItemZ (subst en a) i
+  | EConcat l => EConcat (map (subst en) l)
   | EMask a m => EMask (subst en a) (subst en m)
   | EWhere m v old => EWhere (subst en m) (subst en v) (subst en old)
-  | EArg _ | EInt _ | EFloat _ | EBool _ => a
+  | EArg _ | EInt _ | EFloat _ | EBool _ | ENone => a
   end.
 Fixpoint flat_stmt (s : stmt) (k : env -> rtree) (en : env) : rtree :=
   match s with
@@ -112,7 +122,7 @@ Definition vp_tree (p : vprog) : rtree := flat_block (vp_body p) (fun _ => TNone
 
 (* ---- values ---- *)
 Inductive sval := SB (b : bool) | SI (py : bool) (z : Z) | SF (py : bool) (x : xval).
-Inductive val := VS (s : sval) | VB (l : list bool) | VZ (l : list Z) | VQ (l : list Q) | VX (l : list xval).
+Inductive val := VS (s : sval) | VB (l : list bool) | VZ (l : list Z) | VQ (l : list Q) | VX (l : list xval) | VNone.
 
 Definition b2q (b : bool) : Q := if b then 1 else 0.
 Definition b2z (b : bool) : Z := if b then 1%Z else 0%Z.
@@ -278,6 +288,22 @@ Definition v_un (op : unop) (a : val) : evr :=
   | _ => None
   end.
 Definition is_nil {A} (l : list A) : bool := match l with [] => true | _ => false end.
+(* np.median: the middle element of the sorted array, or the mean of the two middle elements *)
+Fixpoint vinsert (x : Q) (l : list Q) : list Q :=
+  match l with [] => [x] | y :: t => if qleb x y then x :: l else y :: vinsert x t end.
+Definition vsort (l : list Q) : list Q := fold_right vinsert [] l.
+Definition vmedian (l : list Q) : Q :=
+  let s := vsort l in let n := length l in
+  if Nat.even n then (nth (n / 2 - 1) s 0 + nth (n / 2) s 0) / 2 else nth (n / 2) s 0.
+Definition xmedian (l : list Q) : xval := match l with [] => NaN | _ => Fin (vmedian l) end.
+(* Python slice a[lo:hi] of a sequence of length n: negative bounds count from the end, bounds are clipped *)
+Definition slice_bound (n : nat) (b : option Z) (dflt : nat) : nat :=
+  match b with
+  | None => dflt
+  | Some z => if (z <? 0)%Z then Z.to_nat (Z.max 0 (z + Z.of_nat n)) else Nat.min n (Z.to_nat z)
+  end.
+Definition vslice {A} (lo hi : option Z) (l : list A) : list A :=
+  let n := length l in let a := slice_bound n lo 0 in let b := slice_bound n hi n in firstn (b - a) (skipn a l).
 Definition v_red (op : redop) (a : val) : evr :=
   match op, a with
   | RSum, VQ l => ret (VS (SF false (Fin (qsum l))))
@@ -298,6 +324,10 @@ Definition v_red (op : redop) (a : val) : evr :=
   | RSize, VZ l => ret (VS (SI true (Z.of_nat (length l))))
   | RSize, VQ l => ret (VS (SI true (Z.of_nat (length l))))
   | RSize, VX l => ret (VS (SI true (Z.of_nat (length l))))
+  (* np.mean = sum / count (nan on an empty array); np.median: nan on an empty array *)
+  | RMean, VQ l => ret (VS (SF false (xdiv (qsum l) (inject_Z (Z.of_nat (length l))))))
+  | RMean, VB l => ret (VS (SF false (xdiv (inject_Z (vcount l)) (inject_Z (Z.of_nat (length l))))))
+  | RMedian, VQ l => ret (VS (SF false (xmedian l)))
   | _, _ => None
   end.
 Definition v_astype (t : dty) (a : val) : evr :=
@@ -352,6 +382,23 @@ Definition v_item (a : val) (i : nat) : evr :=
   | _ => None
   end.
 
+Definition v_slice (lo hi : option Z) (a : val) : evr :=
+  match a with
+  | VB l => ret (VB (vslice lo hi l)) | VZ l => ret (VZ (vslice lo hi l)) | VQ l => ret (VQ (vslice lo hi l))
+  | _ => None end.
+(* a[i], i < 0: counts from the end (IndexError when out of range) *)
+Definition v_itemz (a : val) (i : Z) : evr :=
+  match a with
+  | VQ l => Some (VS (SF false (Fin (nth (Z.to_nat (Z.of_nat (length l) + i)) l 0))), [((0 <=? Z.of_nat (length l) + i)%Z, IndexError)])
+  | VZ l => Some (VS (SI false (nth (Z.to_nat (Z.of_nat (length l) + i)) l 0%Z)), [((0 <=? Z.of_nat (length l) + i)%Z, IndexError)])
+  | _ => None end.
+Definition v_isnone (a : val) : evr := match a with VNone => ret (VS (SB true)) | _ => ret (VS (SB false)) end.
+Definition vcat {A} (a b : list A) : list A := a ++ b.
+Fixpoint concat_qs (l : list val) : option (list Q) :=
+  match l with
+  | [] => Some []
+  | v :: t => match as_qs v, concat_qs t with Some a, Some r => Some (vcat a r) | _, _ => None end
+  end.
 Definition argn (args : list val) (i : nat) : evr := match nth_error args i with Some v => ret v | None => None end.
 (* sequencing: the conditions of the operands come first, in order *)
 Definition ebind (a : evr) (f : val -> evr) : evr :=
@@ -395,6 +442,16 @@ Fixpoint ev (a : vexp) : evr :=
          | x :: t => match ev x with Some (v, c) => evl t (v :: acc) (cs ++ c) | None => None end
          end) l [] []
   | EItem a i => ebind (ev a) (fun x => v_item x i)
+  | ENone => ret VNone
+  | EIsNone a => ebind (ev a) v_isnone
+  | ESlice lo hi a => ebind (ev a) (v_slice lo hi)
+  | EItemZ a i => ebind (ev a) (fun x => v_itemz x i)
+  | EConcat l =>
+      (fix evl (l : list vexp) (acc : list val) (cs : list cond) : evr :=
+         match l with
+         | [] => match concat_qs (rev acc) with Some qs => Some (VQ qs, cs) | None => None end
+         | x :: t => match ev x with Some (v, c) => evl t (v :: acc) (cs ++ c) | None => None end
+         end) l [] []
   | EMask a m => ebind2 (ev a) (ev m) v_mask
   | EWhere m v old =>
       match ev m, ev v, ev old with
